@@ -165,7 +165,8 @@ both engines is exactly `return enqueue(close(sid))`, `connect()` only takes an 
 closes the session it finds (only timer-originated closes are filtered). This is what `Cfg.engine` is computed from; every C04
 theorem is stated under it (`Cfg.Good`). -/
 theorem engine_contract_from_source :
-    ConnectSyncFacts.genEngine = { closeEnqueues := true, connectEnqueues := true, processCloses := true } := by decide
+    ConnectSyncFacts.genEngine =
+      { closeEnqueues := true, connectEnqueues := true, processCloses := true, timersTagged := true } := by decide
 
 /-- **Exact skeleton pins (review item C).** Head and tail of `connectSync`, the pending branches of both handlers and the
 statement order of `connectSyncCancellable` are equal, event by event, to the lists in `Model/ConnectSyncFacts.lean`; `timeout` is
@@ -271,6 +272,10 @@ theorem T3_timed_out_attempt_is_closed (cfg : Cfg) (hg : cfg.Good) (steps : List
     (runC cfg init steps).eng sid = .closed :=
   T3_nothing_left_open cfg hg steps c sid (T3_timeout_closes cfg hg steps c sid h) hq
 
+/-- the conforming configuration, spelled out (what `genCfg` evaluates to on a conforming tree: `skeleton_conforms`) -/
+def genCfgTrue : Cfg :=
+  { lockHeld := true, closeWindow := true, handlers := true, timing := true, args := true, engine := true, noBypass := true }
+
 /-- a configuration that satisfies every fact EXCEPT the engine contract: `close()` may return without queueing (seed C04-d) -/
 def cfgDroppingClose : Cfg :=
   { lockHeld := true, closeWindow := true, handlers := true, timing := true, args := true, engine := false, noBypass := true }
@@ -288,6 +293,118 @@ theorem dropped_close_refutes_T3 :
     let s := runC cfgDroppingClose init droppedCloseWitness
     Ev.attemptRet 0 (some 1) (.err .timeout) ∈ s.log ∧ Ev.engineClose 0 1 ∈ s.log ∧ s.fifo = [] ∧ s.io = .idle ∧
     s.eng 1 = .established ∧ (s.pend 1).isSome = true := by decide
+
+/-- **T1, second half (ok ⇒ a live session the transport does not close by itself).** Every reachable state, every step: a session
+that is ESTABLISHED in the engine stays established unless the step is the PEER closing it or the I/O thread popping a Close
+command for it (only `engine->close` of a connectSync timeout exit enqueues one — and by `T1_ok_is_live` none exists for a
+returned session). In particular the engine's own connect-timeout timer (`timerClose sid`: tagged ConnectTimeout, hence ignored by
+`process()` once the connect completed) cannot close a session `connectSync` has returned. Needs `Cfg.engine` (`timersTagged`). -/
+theorem T1_established_closed_only_by_peer_or_close_cmd (cfg : Cfg) (hg : cfg.Good) (s : State) (st : Step) (sid : Nat)
+    (he : s.eng sid = .established) :
+    (stepC cfg s st).eng sid = .established ∨ st = .ioPeerClose sid ∨
+    (∃ b, st = .ioPop b ∧ s.fifo.head? = some (.close sid)) := by
+  rw [stepC_good hg]
+  cases st with
+  | ioPop b =>
+    simp only [step, doPop]
+    split
+    · rename_i sid' rest hio hf
+      by_cases hs : sid' = sid
+      · subst hs; simp [he]
+      · split
+        · split <;> simp [setE, Ne.symm hs, he]
+        · simp [he]
+    · rename_i sid' rest hio hf
+      by_cases hs : sid' = sid
+      · subst hs; exact Or.inr (Or.inr ⟨b, rfl, by simp [hf]⟩)
+      · split <;> simp [setE, Ne.symm hs, he]
+    · exact Or.inl he
+  | ioComplete sid' =>
+    simp only [step, doComplete]
+    split
+    · rename_i hio hc
+      by_cases hs : sid' = sid
+      · subst hs; rw [he] at hc; cases hc
+      · simp [setE, Ne.symm hs, he]
+    · exact Or.inl he
+  | ioFail sid' =>
+    simp only [step, doFail]
+    split
+    · rename_i hio hc
+      by_cases hs : sid' = sid
+      · subst hs; rw [he] at hc; cases hc
+      · simp [setE, Ne.symm hs, he]
+    · exact Or.inl he
+  | timerClose sid' =>
+    simp only [step, doFail]
+    split
+    · rename_i hio hc
+      by_cases hs : sid' = sid
+      · subst hs; rw [he] at hc; cases hc
+      · simp [setE, Ne.symm hs, he]
+    · exact Or.inl he
+  | ioPeerClose sid' =>
+    by_cases hs : sid' = sid
+    · subst hs; exact Or.inr (Or.inl rfl)
+    · simp only [step, doPeerClose]
+      split
+      · simp [setE, Ne.symm hs, he]
+      · exact Or.inl he
+  | ioStep =>
+    simp only [step, doIoStep]
+    split
+    · unfold connHandler; split
+      · split <;> exact Or.inl he
+      · exact Or.inl he
+    · unfold closeHandler; split
+      · split <;> exact Or.inl he
+      · exact Or.inl he
+    · rename_i c' sid' _
+      refine Or.inl ?_
+      show (notify s c' sid').eng sid = .established
+      unfold notify; split <;> (try split) <;> exact he
+    · rename_i c' sid' _
+      refine Or.inl ?_
+      show (notify s c' sid').eng sid = .established
+      unfold notify; split <;> (try split) <;> exact he
+    · exact Or.inl he
+    · exact Or.inl he
+    · exact Or.inl he
+  | call c w => simp only [step, doCall]; split <;> (try split) <;> exact Or.inl he
+  | cancel c => exact Or.inl he
+  | cEnter c => simp only [step, doEnter]; split <;> (try split) <;> exact Or.inl he
+  | cConnect c => simp only [step, doConnect]; split <;> exact Or.inl he
+  | cRefuse c => simp only [step, doRefuse]; split <;> exact Or.inl he
+  | cRegister c => simp only [step, doRegister]; split <;> exact Or.inl he
+  | cPark c => simp only [step, doPark]; split <;> exact Or.inl he
+  | cWake c t =>
+    simp only [step, doWake]; split
+    · split
+      · unfold afterWait; dsimp only; split
+        · exact Or.inl he
+        · split <;> exact Or.inl he
+      · exact Or.inl he
+    · exact Or.inl he
+  | cClose c => simp only [step, doClose]; split <;> exact Or.inl he
+  | cRelock c => simp only [step, doRelock]; split <;> exact Or.inl he
+  | wLoop c d => simp only [step, doWLoop]; split <;> (try split) <;> (try split) <;> exact Or.inl he
+  | fence => simp only [step, doFence]; split <;> exact Or.inl he
+
+/-- the schedule of seed C04-e: the connect completes, `connectSync` returns `ok 1` — and then the I/O thread processes the Close
+the engine's connect-timeout timer had enqueued while it was busy -/
+def staleTimerWitness : List Step :=
+  [.call 0 false, .cEnter 0, .cConnect 0, .cRegister 0, .cPark 0, .ioPop true, .ioComplete 1, .ioStep, .ioStep, .cWake 0 false,
+   .timerClose 1, .ioStep, .ioStep]
+
+/-- **The origin tag of the timer handlers is NECESSARY.** With an untagged timer close (`Cfg.engine` false, seed C04-e) the call
+returns `ok 1`, nobody — neither the peer nor the application nor connectSync — closes session 1, and yet the transport closes it
+by itself and reports it through the GLOBAL close callback. Under the contract the same schedule leaves it established. -/
+theorem untagged_timer_close_refutes_T1 :
+    (let s := runC cfgDroppingClose init staleTimerWitness
+     Ev.attemptRet 0 (some 1) (.ok 1) ∈ s.log ∧ s.eng 1 = .closed ∧ Ev.globalClose 1 ∈ s.log ∧
+     s.log.filter (fun e => match e with | .engineClose _ _ => true | _ => false) = []) ∧
+    (let s := runC genCfgTrue init staleTimerWitness
+     Ev.attemptRet 0 (some 1) (.ok 1) ∈ s.log ∧ s.eng 1 = .established ∧ Ev.globalClose 1 ∉ s.log) := by decide
 
 /-- a configuration that satisfies every fact EXCEPT `noBypass`: the tree before repair FC04b on a UDP transport -/
 def cfgBypass : Cfg :=
